@@ -499,6 +499,7 @@ def classify(ctx, cases, tag):
 
 def correspondence(ctx):
     basecorr.run(ctx)
+    __import__("rrgenlib").validate(ctx, sys.modules[__name__])     # translator tie (wt-trrule): Gen.* of Generated/RRuleKernels.lean vs the methods
     cases = list(WITNESS_CASES) + gen_cases(ctx, "corr", ctx.budget(300, 5000), malformed_rate=0.15)
     cases += ambient_cases(ctx, "corr-ambient", ctx.budget(30, 600))
     reqs_c = ["rrule.construct " + wire(c) for c in cases]
